@@ -165,7 +165,8 @@ def gen_plan(seed, prop, faults, nested=False):
                 formulas.append({'logic': base['logic'], 'tree': t2,
                                  'text_ok': True, 'twin': tw})
             cfg['twins'] = True
-    if cfg['large']:
+    cfg['huge_candidate'] = True
+    if cfg['large'] or prop == 'C19':
         # shapes that matter on a large structure with a unique marker
         for t2 in (['ap', 'u'], ['E', ['X', ['ap', 'u']]],
                    ['A', ['X', ['Not', ['ap', 'u']]]],
@@ -260,16 +261,59 @@ def gen_plan(seed, prop, faults, nested=False):
                 if rng.random() < 0.4:
                     labs[i].append({'s': rng.choice(['p q', 'p  q'])})
         structs.append({'A': A, 'family': fam, 'smap': smap, 'labs': labs,
+                        'labtype': rng.choice(['list', 'list', 'tuple',
+                                               'set', 'frozenset']),
                         'F': F,
                         'S0': sorted(rng.sample(range(n),
                                                 rng.randint(0, n)))})
+    if cfg['fair'] and len(structs) >= 2 and rng.random() < 0.3:
+        # two structures over the same kind of states and ONE fairness
+        # object used for both; a constraint names a state that only the
+        # larger structure has (legal: states outside K are ignored)
+        a, b = rng.sample(range(len(structs)), 2)
+        na, nb = structs[a]['A']['n'], structs[b]['A']['n']
+        if na > nb:
+            a, b, na, nb = b, a, nb, na
+        if na < nb:
+            for k in (a, b):
+                structs[k]['family'] = 'int'
+                structs[k]['smap'] = [{'i': v} for v in
+                                      range(structs[k]['A']['n'])]
+            inside = rng.randrange(na)
+            foreign = rng.randrange(na, nb)
+            structs[a]['F'] = [[[inside, foreign]]] + structs[a]['F'][:1]
+            structs[b]['F'] = [{'same_as': a, 'index': 0}] + \
+                structs[b]['F'][:1]
+            # shapes on which fairness makes a difference: the larger
+            # structure has two fair components, the foreign state lies in
+            # the second one
+            structs[a]['A']['E'] = gen.gen_graph(rng, na, 'fairfriendly')
+            structs[b]['A']['E'] = gen.gen_graph(rng, nb, 'twocycles')
+            if nb // 2 >= 1 and foreign < nb // 2 and nb - 1 >= na:
+                foreign = rng.randrange(max(na, nb // 2), nb)
+                structs[a]['F'][0] = [[inside, foreign]]
+            cfg['shared_F'] = [a, b]
     if rng.random() < 0.05:
         # the structure without states (vacuously total)
         structs.append({'A': {'n': 0, 'E': [], 'lab': []}, 'family': 'int',
                         'smap': [], 'labs': [],
                         'F': [[], [[]]] if cfg['fair'] else [],
                         'S0': []})
-    if cfg['large']:
+    if prop == 'C19' and rng.random() < 0.04:
+        # a long corridor: 1 200-2 500 states in a chain that ends in a
+        # self-loop (deep paths, shallow everything else); CTL queries only
+        n = rng.choice([1200, 1800, 2500])
+        E = [[i, i + 1] for i in range(n - 1)] + [[n - 1, n - 1]]
+        lab = [['p'] for _ in range(n)]
+        lab[n - 1] = ['p', 'u']
+        structs.append({'A': {'n': n, 'E': E, 'lab': lab}, 'family': 'tuple',
+                        'smap': [{'t': [{'s': 'c'}, {'i': i}]}
+                                 for i in range(n)],
+                        'labs': [[{'s': a} for a in l] for l in lab],
+                        'F': [], 'S0': [0], 'large': True, 'huge': True})
+        cfg['large'] = True
+        cfg['huge'] = True
+    elif cfg['large']:
         n = rng.randint(32, 45)
         A = gen.gen_abstract_kripke(rng, n, atoms, 0.2,
                                     rng.choice(['random', 'fairfriendly',
@@ -408,6 +452,24 @@ def gen_plan(seed, prop, faults, nested=False):
                 q3['parser'] = 'none'
                 ops.append({'op': 'call', 'q': q3})
                 calls.append(len(ops) - 1)
+    if cfg.get('shared_F'):
+        # make sure the shared fairness object is used on the smaller
+        # structure first and on the larger one afterwards
+        a, b = cfg['shared_F']
+        cands = [fi for fi, f in enumerate(formulas)
+                 if 'mc' not in f and f['logic'] != 'LTL']
+        if cands:
+            for _ in range(2):
+                fi = rng.choice(cands)
+                qa = {'k': a, 'f': fi, 'mc': formulas[fi]['logic'],
+                      'form': 'obj', 'F': 0, 'parser': 'none'}
+                qb = dict(qa, k=b)
+                pos = rng.randint(0, len(ops))
+                ops = [dict(o, of=o['of'] + 1)
+                       if o['op'] == 'mutate' and o['of'] >= pos else o
+                       for o in ops]
+                ops.insert(pos, {'op': 'call', 'q': qa})
+                ops.append({'op': 'call', 'q': qb})
     return {'prop': prop, 'cfg': cfg, 'formulas': formulas,
             'structs': structs, 'ops': ops}
 
@@ -464,11 +526,25 @@ class Pool(object):
                         out.append('[{}]'.format(core.build_formula(tr, lg)))
                     else:
                         out.append(core.dec_value(e))
-                L[vals[i]] = out
+                lt = s.get('labtype', 'list')
+                L[vals[i]] = {'tuple': tuple, 'set': set,
+                              'frozenset': frozenset}.get(lt, list)(out)
             S0 = [vals[i] for i in s.get('S0', [])]
             self.K.append(Kripke(vals, S0, R, L))
-            self.F.append([[set(vals[i] for i in P) for P in Fl]
-                           for Fl in s['F']])
+            Fs = []
+            for Fl in s['F']:
+                if isinstance(Fl, dict):
+                    Fs.append(Fl)        # resolved below
+                else:
+                    # plain ints may name states the structure does not have
+                    Fs.append([set(vals[i] if i < len(vals) else i
+                                   for i in P) for P in Fl])
+            self.F.append(Fs)
+        for Fs in self.F:
+            for j, Fl in enumerate(Fs):
+                if isinstance(Fl, dict):
+                    # the very same fairness object as another structure's
+                    Fs[j] = self.F[Fl['same_as']][Fl['index']]
         self.parsers = {}
 
     def snapshot(self):
@@ -658,6 +734,7 @@ def execute(plan):
         inlogic[k] = 'mc' not in f
         c15_typeerror[k] = q['mc'] == 'LTL' or _has_ER(f['tree'])
 
+    raw_first = {}        # (query key, epoch) -> first raw result of the run
     results = {}          # op index -> [set object, value at return, mutated]
     events = []
     pred = _trace_pred()
@@ -827,6 +904,24 @@ def execute(plan):
                     i, ' (final re-issue)' if final else '', q['mc'], q['k'],
                     q['f'], q['form'], q['F'], q['parser'],
                     core.cjson(out)[:300], core.cjson(ref['o'])[:300]))
+        if fired is None and nest is None and isinstance(res, set):
+            # repeating a call must return an EQUAL set - equal as Python
+            # sets of the caller's own state objects, not merely equal after
+            # canonical encoding (copies of identity-compared states encode
+            # alike but are different objects)
+            kk = (k, epoch[0])
+            prev = raw_first.get(kk)
+            if prev is None:
+                raw_first[kk] = set(set.__iter__(res))
+            elif set(set.__iter__(res)) != prev:
+                raise Violation(
+                    prop + '/I2-repeat-unequal',
+                    'op {}{}: repeating {}.modelcheck(structure {}, formula '
+                    '{}) returned a set that is not == to the one returned '
+                    'before ({} vs {} elements; same canonical encoding: {})'
+                    .format(i, ' (final re-issue)' if final else '', q['mc'],
+                            q['k'], q['f'], len(res), len(prev),
+                            out == ref['o']))
         if prop == 'C19' and fired is None:
             if wellformed[k] and out[0] == 'raise':
                 raise Violation('C19/K1-internal-error',
